@@ -872,6 +872,29 @@ func (f *frame) loopEnv(li *loopInfo, phiVals map[*ssa.Phi]Val, heap *heapState)
 				}
 			}
 		}
+		// 1b'. rlen<N>: the length range loop N iterates to (evaluated once, before the loop)
+		if strings.HasPrefix(name, "rlen") {
+			var n int
+			if _, err := fmt.Sscanf(name, "rlen%d", &n); err == nil {
+				for _, l2 := range f.loops {
+					if l2.ordinal != n || len(l2.header.Instrs) == 0 {
+						continue
+					}
+					if iff, ok := l2.header.Instrs[len(l2.header.Instrs)-1].(*ssa.If); ok {
+						if bo, ok := iff.Cond.(*ssa.BinOp); ok && bo.Op == token.LSS {
+							if have, ok := f.vals[bo.Y]; ok {
+								if t, ok := have.(Term); ok {
+									return SVal{T: t, GoT: bo.Y.Type()}, true
+								}
+							}
+							if cst, ok := bo.Y.(*ssa.Const); ok {
+								return SVal{T: f.c.constTerm(cst), GoT: bo.Y.Type()}, true
+							}
+						}
+					}
+				}
+			}
+		}
 		// 1c. address-taken locals
 		if v, ok := f.addrVar(name, heap); ok {
 			return v, true
